@@ -108,7 +108,14 @@ def group_sections(g, sockdir, changed=False, new=False):
     events = list(g.get('events') or ['TICK_5'])
     if new and g.get('reorder'):
         events.reverse()          # same subscriptions, other order on the events= line
-    extra = [('umask', '027')] if changed else []
+    # how a "changed" group differs: a process option by default, or the group's own kind of option
+    how = g.get('change_opt') or 'umask'
+    CH = {'umask': ('umask', '027'), 'priority': ('priority', '5'), 'socket_mode': ('socket_mode', '0770'),
+          'socket_backlog': ('socket_backlog', '7'), 'buffer_size': ('buffer_size', '33'),
+          'environment': ('environment', 'CH="1"'), 'stdout_logfile': ('stdout_logfile', 'NONE')}
+    extra = [CH[how]] if changed and how != 'events' else []
+    if changed and how == 'events':
+        events = events + ['PROCESS_STATE']
     if k == 'program':
         return [('program:%s' % g['name'], member_options(ms[0], sockdir) + extra)]
     if k == 'listener':
@@ -125,12 +132,25 @@ def group_sections(g, sockdir, changed=False, new=False):
 def scenario_files(sc, sockdir, added_logs=False):
     """(old sections, new sections); with added_logs the added programs name their stdout log file"""
     old, new = [], []
+    moves = sc.get('moves') or []          # [(member name, from group, to group)]: applied to the new file
+    byname = dict((g['name'], g) for g in sc['groups'])
+
+    def moved(g):
+        if not moves or g['kind'] != 'group':
+            return g
+        ms = [m for m in g['members'] if not any(mv[0] == m['name'] and mv[1] == g['name'] for mv in moves)]
+        for mname, frm, to in moves:
+            if to == g['name']:
+                ms = ms + [m for m in byname[frm]['members'] if m['name'] == mname]
+        g2 = dict(g)
+        g2['members'] = ms
+        return g2
     for g in sc['groups']:
         old += group_sections(g, sockdir)
         if g['fate'] == 'keep':
             new += group_sections(g, sockdir, new=True)
         elif g['fate'] == 'change':
-            new += group_sections(g, sockdir, changed=True, new=True)
+            new += group_sections(moved(g), sockdir, changed=not any(g['name'] in mv[1:] for mv in moves), new=True)
     for n in sc['added']:
         new.append(('program:%s' % n, [('command', '/sim/ok/%s' % n)]
                     + ([('stdout_logfile', '%s/%s.out.log' % (sockdir, n))] if added_logs else [])))
